@@ -502,4 +502,15 @@ SnapshotsOK ==
      cp.kind \in {"retract", "alts"} =>
         \A p, q \in DOMAIN cp.snap : p # q => cp.snap[p].id # cp.snap[q].id
 
+
+\* C01/C05/C06: where the scenario carries reference answers (computed by the denotational
+\* semantics of Control.tla, or taken from the textbook corpus), the machine's answers to
+\* the designated solve step are exactly those, in order
+AnswersAreSLD ==
+  (~halted /\ cur.r = 0 /\ pc > Len(Steps) /\ "sem" \in DOMAIN Scn) =>
+     \A i \in DOMAIN Scn.sem :
+        LET h == hist[Scn.sem[i].step] IN
+        /\ h.obs.k = "solve"
+        /\ h.obs.answers = Scn.sem[i].answers
+        /\ h.obs.end = Scn.sem[i].end
 =============================================================================
